@@ -123,6 +123,8 @@ class Env:
         Env._n += 1
         self.id = Env._n
         self.memo = {}
+        self.pred_filter = None   # optional (pred block, block) -> bool: restrict backward walks to some paths
+        self.exit_filter = None   # optional block -> bool: which return blocks count
 
 
 def is_prefix(a, b):
@@ -217,6 +219,9 @@ class Eval:
             return ("mutated", self.project1(base, e, env), site, path[1:] if path and path[0] == e else ())
         if k == "field":
             name = e[1]
+            if tag == "call" and t[1].endswith("Matrix::shape") and name in ("0", "1") and t[3]:
+                # M.shape() = (nrows, ncols)
+                return ("call", "nalgebra::Matrix::" + ("nrows" if name == "0" else "ncols"), t[2], (t[3][0],), t[4])
             if tag == "bin" and t[1].endswith("WithOverflow"):
                 base = t[1][: -len("WithOverflow")]
                 if name == "0":
@@ -496,6 +501,8 @@ class Eval:
         for p in body.pred(b):
             if p not in live:
                 continue
+            if env.pred_filter is not None and not env.pred_filter(p, b):
+                continue
             vk = (pk, p)
             if vk in visiting:
                 if ("loopback",) not in alts:
@@ -571,10 +578,18 @@ class Eval:
                 return self.ret_val(Env(cb, {i + 1: x for i, x in enumerate(args)}, env.depth + 1))
         return ("call", "apply", None, (f,) + tuple(args), site)
 
+    presence_hook = None   # set by core: (ev, env, block) -> set of conditions holding at block
+
     def ret_val(self, env):
         body = env.body
         alts = []
+        if env.depth > 0 and Eval.presence_hook is not None and body.j.get("output", "").startswith("std::option::Option<"):
+            v = self._ret_val_with_presence(env)
+            if v is not None:
+                return v
         for rb in body.exits():
+            if env.exit_filter is not None and not env.exit_filter(rb):
+                continue
             v = self._lookup_in_block(env, (0, ()), rb, None, frozenset())
             if v[0] == "phi":
                 for a in v[1]:
@@ -583,6 +598,42 @@ class Eval:
             elif v not in alts:
                 alts.append(v)
         alts = [a for a in alts if a != ("unreachable",)] or alts
+        if not alts:
+            return ("unreachable",)
+        if len(alts) == 1:
+            return alts[0]
+        return ("phi", tuple(alts))
+
+    def _ret_val_with_presence(self, env):
+        """return value of an inlined Option-returning callee, each Some(..) alternative carrying
+        the conditions that dominate its construction site (if-form presence conditions)"""
+        body = env.body
+        sites = []
+        for bi in sorted(body.live_blocks()):
+            bb = body.blocks[bi]
+            for si, s in enumerate(bb["stmts"]):
+                if s["k"] == "assign" and s["place"]["l"] == 0:
+                    if s["place"]["proj"]:
+                        return None
+                    sites.append((bi, si, None))
+            t = bb["term"]
+            if t["k"] == "call" and t["dest"]["l"] == 0:
+                if t["dest"]["proj"]:
+                    return None
+                sites.append((bi, None, t))
+        alts = []
+        for bi, si, t in sites:
+            v = self.call_val(env, bi) if t is not None else self.rvalue(env, body.blocks[bi]["stmts"][si]["rv"], (bi, si))
+            vs = v[1] if v[0] == "phi" else (v,)
+            for a in vs:
+                if a[0] == "opt":
+                    try:
+                        extra = Eval.presence_hook(self, env, bi)
+                    except RecursionError:
+                        extra = set()
+                    a = ("opt", a[1], frozenset(a[2]) | frozenset(extra))
+                if a != ("unreachable",) and a not in alts:
+                    alts.append(a)
         if not alts:
             return ("unreachable",)
         if len(alts) == 1:
@@ -647,6 +698,24 @@ class Eval:
             return t
         if t[0] == "none":
             return None
+        if t[0] == "phi":
+            # e.g. the value of an inlined helper that returns Some(x) on one path and None on others
+            pls, conds, ok = [], set(), True
+            for a in t[1]:
+                if a[0] in ("none", "unreachable", "from_residual") or (a[0] == "agg" and a[2] in ("Err", "None")):
+                    continue
+                if a[0] == "opt":
+                    if a[1] not in pls:
+                        pls.append(a[1])
+                    conds |= set(a[2])
+                elif a[0] == "agg" and a[2] in ("Ok", "Some") and a[3]:
+                    if a[3][0][1] not in pls:
+                        pls.append(a[3][0][1])
+                else:
+                    ok = False
+            if ok and pls:
+                p = pls[0] if len(pls) == 1 else ("phi", tuple(pls))
+                return ("opt", p, frozenset(conds) | frozenset([("is_ok", t)]))
         return ("opt", ("payload", t, "ok", "0"), frozenset([("is_ok", t)]))
 
     def option_algebra(self, cid, args, site, env):
